@@ -8,7 +8,7 @@
 use super::{Operator, OperatorResult};
 use crate::execution::chunk::DataChunkBuilder;
 use crate::graph::lpg::LpgStore;
-use grafeo_common::types::{LogicalType, NodeId, PropertyKey, Value};
+use grafeo_common::types::{EpochId, LogicalType, NodeId, PropertyKey, TxId, Value};
 use std::sync::Arc;
 
 /// Merge operator for MERGE clause.
@@ -30,6 +30,10 @@ pub struct MergeOperator {
     on_match_properties: Vec<(String, Value)>,
     /// Whether we've already executed.
     executed: bool,
+    /// Epoch and transaction the match sees the graph at (None = the store's epoch).
+    viewing: Option<(EpochId, TxId)>,
+    /// Epoch and transaction stamped on a node the merge creates.
+    creating: Option<(EpochId, TxId)>,
 }
 
 impl MergeOperator {
@@ -50,7 +54,25 @@ impl MergeOperator {
             on_create_properties,
             on_match_properties,
             executed: false,
+            viewing: None,
+            creating: None,
         }
+    }
+
+    /// Sets the transaction context: the match sees what the transaction sees at
+    /// `viewing_epoch`, and a node the merge creates is stamped `write_epoch` and
+    /// belongs to the transaction (so that a rollback discards it).
+    #[must_use]
+    pub fn with_tx_context(
+        mut self,
+        viewing_epoch: EpochId,
+        write_epoch: EpochId,
+        tx_id: Option<TxId>,
+    ) -> Self {
+        let tx = tx_id.unwrap_or(TxId::SYSTEM);
+        self.viewing = Some((viewing_epoch, tx));
+        self.creating = Some((write_epoch, tx));
+        self
     }
 
     /// Returns the variable name for the merged node.
@@ -64,13 +86,19 @@ impl MergeOperator {
         // Get all nodes with the first label (or all nodes if no labels)
         let candidates: Vec<NodeId> = if let Some(first_label) = self.labels.first() {
             self.store.nodes_by_label(first_label)
+        } else if self.viewing.is_some() {
+            self.store.all_node_ids()
         } else {
             self.store.node_ids()
         };
 
         // Filter by all labels and properties
         for node_id in candidates {
-            if let Some(node) = self.store.get_node(node_id) {
+            let node = match self.viewing {
+                Some((epoch, tx)) => self.store.get_node_versioned(node_id, epoch, tx),
+                None => self.store.get_node(node_id),
+            };
+            if let Some(node) = node {
                 // Check all labels
                 let has_all_labels = self.labels.iter().all(|label| node.has_label(label));
                 if !has_all_labels {
@@ -113,7 +141,12 @@ impl MergeOperator {
         }
 
         let labels: Vec<&str> = self.labels.iter().map(String::as_str).collect();
-        self.store.create_node_with_props(&labels, all_props)
+        match self.creating {
+            Some((epoch, tx)) => self
+                .store
+                .create_node_with_props_versioned(&labels, all_props, epoch, tx),
+            None => self.store.create_node_with_props(&labels, all_props),
+        }
     }
 
     /// Applies ON MATCH properties to an existing node.
